@@ -285,10 +285,13 @@ fn exec(r: &Run, rep: &mut Report) -> Option<(Value, String)> {
     }
     // clause 2a: an archive whose members are all benign, extracted into a tree without links, must extract
     // (a refused or failing member would otherwise silence clause 2b)
-    if code != Some(0) && !r.symlink && !r.filelink && r.names.iter().all(|n| classify(n) == Class::Benign) {
+    // (members that are refused or whose destination cannot be created - over-long components - are skipped by the
+    // tool, they do not make the command fail: whatever the archive holds, the run ends with status 0 and clause 2b
+    // judges every benign member)
+    if code != Some(0) && !r.symlink && !r.filelink {
         return Some((
-            json!({"kind": "extraction_of_benign_members_fails", "form": r.form.split(':').next().unwrap_or("")}),
-            format!("mlar {:?} exited {:?} although every member name is benign; stderr: {}", args, code, String::from_utf8_lossy(&output.stderr).chars().take(300).collect::<String>()),
+            json!({"kind": "extraction_fails", "form": r.form.split(':').next().unwrap_or("")}),
+            format!("mlar {:?} exited {:?} (no link in the output tree: every member is either extracted or skipped); stderr: {}", args, code, String::from_utf8_lossy(&output.stderr).chars().take(300).collect::<String>()),
         ));
     }
     // clause 2b: on success, benign members are there with their content
